@@ -114,7 +114,7 @@ namespace cds { namespace urcu {
     protected:
         //@cond
         general_threaded( size_t nBufferCapacity )
-            : m_Buffer( nBufferCapacity )
+            : m_Buffer( nBufferCapacity < 2 ? 2 : nBufferCapacity )   // the cyclic queue needs at least two cells
             , m_nCurEpoch( 1 )
             , m_nCapacity( nBufferCapacity )
         {}
